@@ -1083,11 +1083,11 @@ func (g *lcGen) scriptAssets(v *lcView) []string {
 	}
 	one(g.ph("axfer", a) + fmt.Sprintf(",%d,%d,0,%d,0", aid, x, b))
 	one(g.ph("afrz", frz) + fmt.Sprintf(",%d,%d,1", aid, b))
-	one(g.ph("axfer", b) + fmt.Sprintf(",%d,%d,0,%d,0", aid, g.pick(0, 1, x), c))            // out of a frozen holding
-	one(g.ph("axfer", a) + fmt.Sprintf(",%d,%d,0,%d,0", aid, g.pick(0, 1), b))               // into a frozen holding
-	one(g.ph("axfer", clw) + fmt.Sprintf(",%d,%d,%d,%d,0", aid, g.pick(1, x/2, x), b, c))    // clawback from frozen b
-	one(g.ph("axfer", g.pick(a, b, c)) + fmt.Sprintf(",%d,1,%d,%d,0", aid, b, c))            // clawback by somebody (maybe not the clawback address)
-	one(g.ph("acfg", a) + fmt.Sprintf(",%d,0,0,0,0,0,0,0", aid))                              // destroy while others hold
+	one(g.ph("axfer", b) + fmt.Sprintf(",%d,%d,0,%d,0", aid, g.pick(0, 1, x), c))         // out of a frozen holding
+	one(g.ph("axfer", a) + fmt.Sprintf(",%d,%d,0,%d,0", aid, g.pick(0, 1), b))            // into a frozen holding
+	one(g.ph("axfer", clw) + fmt.Sprintf(",%d,%d,%d,%d,0", aid, g.pick(1, x/2, x), b, c)) // clawback from frozen b
+	one(g.ph("axfer", g.pick(a, b, c)) + fmt.Sprintf(",%d,1,%d,%d,0", aid, b, c))         // clawback by somebody (maybe not the clawback address)
+	one(g.ph("acfg", a) + fmt.Sprintf(",%d,0,0,0,0,0,0,0", aid))                          // destroy while others hold
 	if g.r.Chance(50) {
 		one(g.ph("axfer", b) + fmt.Sprintf(",%d,0,0,0,%d", aid, c)) // frozen b closes to a non-creator
 	}
@@ -1129,14 +1129,14 @@ func (g *lcGen) scriptMinBal(v *lcView) []string {
 	one(g.ph("pay", a) + fmt.Sprintf(",%d,%d,0", z, mb-1)) // receiver below min balance
 	one(g.ph("pay", a) + fmt.Sprintf(",%d,%d,0", z, mb))   // exactly at it
 	if z >= 1 && z <= 6 {
-		one(g.ph("axfer", z) + fmt.Sprintf(",%d,0,0,%d,0", aid, z))                  // cannot even pay the fee
-		one(g.ph("pay", a) + fmt.Sprintf(",%d,%d,0", z, mb+fee-1))                   // one short for an opt-in
-		one(g.ph("axfer", z) + fmt.Sprintf(",%d,0,0,%d,0", aid, z))                  // rejected: below the raised requirement
+		one(g.ph("axfer", z) + fmt.Sprintf(",%d,0,0,%d,0", aid, z))                   // cannot even pay the fee
+		one(g.ph("pay", a) + fmt.Sprintf(",%d,%d,0", z, mb+fee-1))                    // one short for an opt-in
+		one(g.ph("axfer", z) + fmt.Sprintf(",%d,0,0,%d,0", aid, z))                   // rejected: below the raised requirement
 		one(g.ph("pay", a) + fmt.Sprintf(",%d,%d,0", z, 1+fee*uint64(2+g.r.Intn(3)))) // now enough
-		one(g.ph("axfer", z) + fmt.Sprintf(",%d,0,0,%d,0", aid, z))                  // accepted: exactly at 2·mb (+ spare fees)
-		one(g.ph("pay", z) + fmt.Sprintf(",%d,1,%d", a, a))                          // close with an asset outstanding
-		one(g.ph("axfer", z) + fmt.Sprintf(",%d,0,0,0,%d", aid, a))                  // close the holding out
-		one(g.ph("pay", z) + fmt.Sprintf(",%d,0,%d", a, a))                          // close the account: zero record
+		one(g.ph("axfer", z) + fmt.Sprintf(",%d,0,0,%d,0", aid, z))                   // accepted: exactly at 2·mb (+ spare fees)
+		one(g.ph("pay", z) + fmt.Sprintf(",%d,1,%d", a, a))                           // close with an asset outstanding
+		one(g.ph("axfer", z) + fmt.Sprintf(",%d,0,0,0,%d", aid, a))                   // close the holding out
+		one(g.ph("pay", z) + fmt.Sprintf(",%d,0,%d", a, a))                           // close the account: zero record
 	}
 	return out
 }
